@@ -436,12 +436,14 @@ def gen_graph(rng):
     base = {('b%d' % i): i + 1 for i in range(nb)}
     if rng.random() < 0.3:
         base['key'] = 'own-value-of-key'     # a mapping may well have an entry called 'key': arguments are taken by name from the mapping
+    if rng.random() < 0.15:
+        base['self'] = 'own-value-of-self'   # ... or one called 'self': it is a string key like any other
     nd = rng.randint(1, 6) if rng.random() < 0.8 else rng.randint(5, 6)
     dkeys = ['k%d' % i for i in range(nd)]
     # some derived keys redefine existing base keys
     for i in range(nd):
         if base and rng.random() < 0.2:
-            dkeys[i] = rng.choice(list(base))
+            dkeys[i] = rng.choice([b for b in base if b != 'self'] or dkeys[i:i + 1])       # (a definition is given by keyword, and no Python method takes a keyword called self)
     dkeys = list(dict.fromkeys(dkeys))
     cyclic = rng.random() < 0.2 and len(dkeys) >= 2
     perm = dkeys[:]
